@@ -199,6 +199,8 @@ func (i *interpreter) resetPath() {
 	i.pools = map[*value][]value{}
 	i.regexes = map[*value]*regexHandle{}
 	i.protoSeq = 0
+	i.manualTimers = false
+	i.pendingTimers = nil
 	i.protoMsgs = map[string]iface{}
 	i.depth = 0
 	i.chanSeq = 0
@@ -400,7 +402,7 @@ func (p *Program) Run(rc RunConfig) *RunResult {
 		rc.Workers = 1
 	}
 	if rc.ViolPerKey <= 0 {
-		rc.ViolPerKey = 2
+		rc.ViolPerKey = 4
 	}
 	if rc.SolverMs <= 0 {
 		rc.SolverMs = 10000
